@@ -7,6 +7,7 @@ From Dht Require Import Traversal RunTraversal.
 From Dht Require Import Compact Bencode Krpc RunCodec.
 From Dht Require Query Lookups RunLookups.
 From Dht Require RunLookupsSends.
+From Dht Require RunLookupsClosest.
 Require Import ExtrOcamlBasic.
 Extraction Language OCaml.
 Extraction "model.ml"
@@ -30,4 +31,5 @@ Extraction "model.ml"
   RunLookups.rl_init RunLookups.rl_event RunLookups.rl_finish RunLookups.rl_mk_cfg RunLookups.rl_mk_reply
   RunApi.ra_mk_ent RunApi.ra_counts RunApi.ra_accept RunApi.ra_why RunApi.ra_run RunApi.ra_observe RunApi.ra_mk_peer RunApi.ra_store_get RunApi.ra_values RunApi.ra_na_ip RunApi.ra_na_port
   RunLookups.rl_view_sends RunLookups.rl_view_peers RunLookups.rl_view_result RunLookups.rl_view_flags RunLookups.rl_view_nq RunLookups.rl_view_stopping RunLookups.rl_cfg_api
-  RunLookupsSends.rls_take.
+  RunLookupsSends.rls_take
+  RunLookupsClosest.rlc_exact RunLookupsClosest.rlc_view_closest.
